@@ -521,6 +521,67 @@ def absence_tests(prog, chk, rid, min_instances=8):
         chk.fail_broken('%s: only %d value-or-absent choice(s) on a constant found (expected >= %d)' % (rid, n, min_instances))
 
 
+def trailing_data_accepted(prog, chk, rid, grams):
+    """A codec whose struct carries trailing bytes (a member the encoder appends verbatim and the
+    decoder fills from whatever remains) must accept every length its encoder produces.  The
+    decoder is interpreted abstractly (cursor / interval domain of C05): if the number of bytes it can
+    ever hand to that member is provably 0 - an exact-length test rejects everything longer - then
+    decode(encode(x)) throws for every x whose trailing member is not empty."""
+    from .. import absint
+    n = 0
+    for name, ge, gd in grams:
+        enc_extra = [it for it in linearise(ge.items)[0] if it[0] == 'bytes' and is_plain(it[2])
+                     and 'extra' in it[2]] if not ge.unknown else []
+        if not enc_extra:
+            continue
+        it_ = absint.Interp(prog, inline=lambda g: not g.name.startswith('zlib_'))
+        it_.analyse(gd.func)
+        rems = getattr(it_, 'extra_rem', [])
+        n += 1
+        # a decoder cannot know how many trailing bytes there are, so a test that requires the total
+        # (or remaining) length to EQUAL something leaves no room for them: only lower bounds are
+        # compatible with a trailing-bytes member
+        exact_tests = []
+        for x in walk(gd.func.body):
+            if x.get('kind') != 'IfStmt' or len(children(x)) < 2:
+                continue
+            if not any(y.get('kind') == 'CXXThrowExpr' for y in walk(children(x)[1])):
+                continue
+            for y in walk(children(x)[0]):
+                if y.get('kind') == 'BinaryOperator' and y.get('opcode') == '!=':
+                    ops = children(y)
+                    def is_len(e):
+                        for z in walk(e):
+                            if z.get('kind') == 'BinaryOperator' and z.get('opcode') == '-' and \
+                                    all('*' in (strip(w).get('type') or '') for w in children(z)):
+                                return True
+                            if z.get('kind') == 'CXXMemberCallExpr' and strip(children(z)[0]).get('name') == 'size':
+                                return True
+                        return False
+                    if is_len(ops[0]) or is_len(ops[1]):
+                        exact_tests.append(y)
+        if exact_tests:
+            chk.violation(rid, '%s|trailing data never accepted' % name, locstr(exact_tests[0]),
+                          '%s: the encoder appends %s verbatim, but the decoder rejects every input whose length '
+                          'differs from an exact value (test at %s): a value with non-empty %s encodes and its '
+                          'encoding is rejected by its own decoder' % (name, enc_extra[0][2], locstr(exact_tests[0]),
+                                                                      enc_extra[0][2]))
+            continue
+        inst = '%s: the decoder can receive trailing bytes for %s (remaining at that point: %s)' % (
+            name, enc_extra[0][2], sorted({(lo, hi) for lo, hi, _ in rems})[:3])
+        if not rems:
+            chk.unknown(rid, name, 'the encoder appends %s but no decode_extra call was interpreted in the decoder' % enc_extra[0][2])
+        elif all(lo == 0 and hi == 0 for lo, hi, _ in rems):
+            chk.violation(rid, '%s|trailing data never accepted' % name, locstr(gd.func.node),
+                          '%s: not so - on every path that reaches it the remaining length is exactly 0 (an '
+                          'exact-length test rejects anything longer), while the encoder appends the member '
+                          'verbatim: a value with non-empty %s encodes but its encoding is rejected by the '
+                          'decoder' % (inst, enc_extra[0][2]))
+        else:
+            chk.ok(rid, inst, locstr(gd.func.node))
+    return n
+
+
 def run(tier='quick'):
     prog = program.load()
     chk = Check('C03', tier)
@@ -553,6 +614,9 @@ def run(tier='quick'):
         raise AnalysisBroken('only %d codec pairs found' % len(grams))
     symmetry(prog, chk, S1, grams)
     absence_tests(prog, chk, S4)
+    S8 = chk.rule('S8', 'a codec that appends trailing bytes accepts on decode every length its encoder produces',
+                  floor=3)
+    trailing_data_accepted(prog, chk, S8, grams)
     S7 = chk.rule('S7', 'every element a decoder (or conversion loop) appends to its result is built from a fresh '
                         'object in that iteration: no member survives from the previous element', floor=5)
     fresh_elements(prog, chk, S7)
